@@ -114,30 +114,11 @@ CUSTOM_HELP = {
 }
 
 
-def ltb_accepting_integers(reg):
-    """long_to_bytes also accepts an Integer object (it only uses & >> comparisons and struct.pack, all of which go through
-    the object's operators / __index__): the shared assumed contract restated over ival(n)"""
-    import copy
-    q = 'Crypto.Util.number.long_to_bytes'
-    c = copy.copy(reg.contracts[q])
-    c.raises = {k: (m, cond.replace('n < 0', 'ival(n) < 0')) for k, (m, cond) in c.raises.items()}
-    import re
-    c.ensures = {k: re.sub(r'\bn\b', 'ival(n)', cl) for k, cl in c.ensures.items()}
-    # consequences of be(result) == n by positional notation (be(b) < 256**len(b); a non-zero leading digit gives the lower
-    # bound), stated here so that the wrappers' proofs need no general arithmetic lemmas about be()
-    c.ensures['bound'] = 'ival(n) < pow2(8 * len(result))'
-    c.ensures['lower'] = '(blocksize == 0 and ival(n) > 0) ==> ival(n) >= pow2(8 * (len(result) - 1))'
-    c.assumed = c.assumed + ' (restated over ival(n) for Integer arguments)'
-    reg.contracts[q] = c
-    return reg
-
-
 def custom_registry():
     """IntegerCustom: the methods it inherits from IntegerNative are verified again with self: IntegerCustom (the results must
     be IntegerCustom objects and __pow__ must reach ITS inplace_pow); its own three methods against the shared clauses"""
     reg = _integer.registry(self_class=IC)
     add_custom_natives(reg)
-    ltb_accepting_integers(reg)
     interface_contracts(reg, IC, FRAME['native'], names=['inplace_pow'], per_method=CUSTOM_HELP)
     static_contracts(reg, IC, impl_cls=IC, help_={'skip_init': True, '_mult_modulo_bytes': {
         'lemmas': {'exit': {'mulmod': 'mulmod_reduce(ival(term1), ival(term2), ival(modulus))'}}}})
